@@ -13,7 +13,11 @@
 package main
 
 import (
+	"bytes"
 	"context"
+	"net/http"
+	"net/http/httptest"
+	"sync/atomic"
 	"fmt"
 	"math"
 	"net"
@@ -667,6 +671,7 @@ func TestC19(t *testing.T) {
 		}
 	})
 	R.Part("cases", "connect-to:sequences", nc)
+	c19ConnectToEndToEnd(R, t.TempDir())
 
 	// ---- -dns-ttl ---------------------------------------------------------------------------------
 	for _, x := range []struct {
@@ -819,4 +824,80 @@ func c19FirstBad(seq []int, bad func(int) bool, name func(int) string) string {
 		}
 	}
 	return "?"
+}
+
+// c19ConnectToEndToEnd: the mapping a -connect-to value builds is the one the
+// attack uses - "(ip|host):port to use instead of a target URL's
+// (ip|host):port" - for a source given as an unresolvable name, a resolvable
+// name and an IP address, whatever -dns-ttl says (the manual does not make one
+// flag depend on the other).
+func c19ConnectToEndToEnd(R *ev.Run, dir string) {
+	var served int64
+	srv := httptest.NewServer(http.HandlerFunc(func(w http.ResponseWriter, r *http.Request) {
+		atomic.AddInt64(&served, 1)
+		w.Write([]byte("ok"))
+	}))
+	defer srv.Close()
+	dst := strings.TrimPrefix(srv.URL, "http://")
+	l, err := net.Listen("tcp", "127.0.0.1:0")
+	if err != nil {
+		R.Assume("connect-to end to end skipped: no loopback listener: " + err.Error())
+		return
+	}
+	_, dead, _ := net.SplitHostPort(l.Addr().String())
+	l.Close() // nothing listens on this port any more
+	srcs := []struct{ class, addr string }{{"unresolvable-name", "c19.invalid:80"}, {"ip", "127.0.0.1:" + dead}}
+	if a, err := net.LookupHost("localhost"); err == nil && len(a) > 0 {
+		srcs = append(srcs, struct{ class, addr string }{"resolvable-name", "localhost:" + dead})
+	} else {
+		R.Assume("localhost does not resolve here: the resolvable-name source of the connect-to end-to-end cases is left out")
+	}
+	const n = 3
+	cases := 0
+	for _, src := range srcs {
+		for _, ttl := range []string{"", "0", "-1", "1h", "50ms"} {
+			for _, ka := range []string{"true", "false"} {
+				tf, of := filepath.Join(dir, "ct-targets"), filepath.Join(dir, "ct-out")
+				var tg strings.Builder
+				for k := 0; k < n; k++ {
+					fmt.Fprintf(&tg, "GET http://%s/%d\n", src.addr, k)
+				}
+				os.WriteFile(tf, []byte(tg.String()), 0o644)
+				args := []string{"-lazy", "-rate", "0", "-workers", "1", "-max-workers", "1", "-timeout", "10s", "-keepalive=" + ka, "-targets", tf, "-output", of, "-connect-to", src.addr + ":" + dst}
+				if ttl != "" {
+					args = append(args, "-dns-ttl", ttl)
+				}
+				atomic.StoreInt64(&served, 0)
+				err := attackCmd().fn(args)
+				cases++
+				R.Eval(1)
+				R.Trans(n)
+				R.State(1)
+				combo := fmt.Sprintf("source=%s dns-ttl=%q keepalive=%s", src.class, ttl, ka)
+				R.Distinct("connect-to-e2e\x00" + combo)
+				if err != nil {
+					R.Violation("connect-to:end-to-end:attack-fails:"+src.class, map[string]any{"flags": combo, "error": err.Error()})
+					continue
+				}
+				data, _ := os.ReadFile(of)
+				dec := vegeta.NewDecoder(bytes.NewReader(data))
+				ok, first := 0, ""
+				for {
+					var r vegeta.Result
+					if dec.Decode(&r) != nil {
+						break
+					}
+					if r.Code == 200 {
+						ok++
+					} else if first == "" {
+						first = r.Error
+					}
+				}
+				if got := atomic.LoadInt64(&served); ok != n || got != n {
+					R.Violation("connect-to:end-to-end:mapping-not-used:"+src.class, map[string]any{"flags": combo, "args": strings.Join(args, " "), "successful_hits": ok, "hits_at_the_replacement": got, "want": n, "first_error": first})
+				}
+			}
+		}
+	}
+	R.Part("cases", "connect-to:end-to-end", cases)
 }
